@@ -1,4 +1,5 @@
 import Gearpy.Proofs.Solver
+import Gearpy.Model.Pipeline
 /-!
 # C01 — kinematic coupling: neighbours move in the gear ratio at every instant
 
@@ -64,6 +65,34 @@ theorem C01_held (c : Cfg) (ops : List Op) (p v : Q) (s' : St)
       r.speed = zeros (c.links.length + 1) ∧ r.acc = zeros (c.links.length + 1) := by
   intro r hr hl
   exact (all_records_ok c ops _ s' (init_inv c p v) he r hr).lockedStill hl
+
+/-- the ratios the solver uses are the ones the declarations wrote on the heap: link `k` of the
+    configuration built from an assembled chain carries the `master_gear_ratio`, efficiency and kind
+    of chain element `k+1` (C10's post-conditions say what that ratio is: slave teeth / master teeth,
+    wheel teeth / worm starts or its inverse, exactly 1 for a fixed joint) -/
+theorem pipeline_link (h : Heap) (J : Nat → Q) (els : List Nat) (k : Nat) (i : Nat) (e : Elem)
+    (hk : (els.drop 1)[k]? = some i) (he : h[i]? = some e) :
+    (linksOf h J els)[k]? = some { ratio := e.ratio.getD 0, eff := e.eff, inertia := J i, spur := isGearBase e.kind } := by
+  unfold linksOf
+  rw [List.getElem?_map, hk]
+  simp [he]
+
+/-- every record of a simulation of the pipeline's configuration is coupled through exactly those ratios -/
+theorem C01_pipeline (T : Tbl) (h : Heap) (ds : List Decl) (m : Nat) (J : Nat → Q) (chain : List Nat) (links : List Link)
+    (sl : Bool) (c : Cfg) (ha : assembleLinks T h ds m J = .ok (chain, links, sl)) (hc : c.links = links)
+    (ops : List Op) (p v : Q) (s' : St) (he : exec c ops (St.init p v) = .ok s') :
+    links = linksOf (declareAll T h ds) J chain ∧
+    ∀ r ∈ s'.recs, Coupled (links.map (·.ratio)) r.pos ∧ Coupled (links.map (·.ratio)) r.speed ∧
+      Coupled (links.map (·.ratio)) r.acc := by
+  constructor
+  · unfold assembleLinks at ha
+    simp only at ha
+    split at ha
+    · simp at ha
+    · simp only [Except.ok.injEq, Prod.mk.injEq] at ha
+      obtain ⟨h1, h2, _⟩ := ha
+      rw [← h2, ← h1]
+  · rw [← hc]; exact C01 c ops p v s' he
 
 /-! ### non-vacuity: a 3-element chain, run, early stop, reset, rerun — 7 records are produced -/
 def exCfg : Cfg :=
